@@ -82,7 +82,7 @@ var c11RetryCalls = map[string]string{"rpub1": "pub1", "rpub1x": "pub1", "rpub2"
 var c11LockWaitAbsent bool // no call was ever seen waiting in RWMutex.RLock (library changed its locking)
 
 type c11Spec struct {
-	Fam    string   `json:"fam"` // cell | seq | stray | multi | reconn
+	Fam    string   `json:"fam"` // cell | seq | handler | stray | multi | reconn
 	Call   string   `json:"call,omitempty"`
 	Point  string   `json:"point,omitempty"`
 	Cause  string   `json:"cause,omitempty"`
@@ -104,15 +104,17 @@ type c11Obs struct {
 	c11Res
 	Done     bool     `json:"done"`
 	RExit    bool     `json:"rexit"`
-	F14      bool     `json:"f14,omitempty"`       // blocked well past its own cancellation, came back only when the lock holder ended
-	Leak     []string `json:"leak,omitempty"`      // goroutines with library frames left after cleanup
-	LeakAt   string   `json:"leak_at,omitempty"`   // stack of the first of them
-	AuxStuck string   `json:"aux_stuck,omitempty"` // an auxiliary blocking call (lock holder, Disconnect used as cause) did not return
-	All      []c11Res `json:"all,omitempty"`       // multi: every call
-	LoopGone bool     `json:"loop_gone,omitempty"` // reconn: loop goroutine gone after the scenario
-	TClosed  bool     `json:"tclosed,omitempty"`   // seq: the transport was closed at the end
-	Mid      bool     `json:"mid,omitempty"`       // seq: the intermediate observation was as expected
-	Marker   bool     `json:"marker,omitempty"`    // stray: the marker PUBLISH sent after the stray packets reached the handler
+	F14      bool     `json:"f14,omitempty"`              // blocked well past its own cancellation, came back only when the lock holder ended
+	Leak     []string `json:"leak,omitempty"`             // goroutines with library frames left after cleanup
+	LeakAt   string   `json:"leak_at,omitempty"`          // stack of the first of them
+	AuxStuck string   `json:"aux_stuck,omitempty"`        // an auxiliary blocking call (lock holder, Disconnect used as cause) did not return
+	All      []c11Res `json:"all,omitempty"`              // multi: every call
+	LoopGone bool     `json:"loop_gone,omitempty"`        // reconn: loop goroutine gone after the scenario
+	TClosed  bool     `json:"tclosed,omitempty"`          // seq: the transport was closed at the end
+	Mid      bool     `json:"mid,omitempty"`              // seq: the intermediate observation was as expected
+	ExclRet  bool     `json:"excl_returned,omitempty"`    // handler: the exclusive-lock caller returned promptly
+	HandRet  bool     `json:"handler_returned,omitempty"` // handler: the handler returned once released
+	Marker   bool     `json:"marker,omitempty"`           // stray: the marker PUBLISH sent after the stray packets reached the handler
 	Note     string   `json:"note,omitempty"`
 	Crash    string   `json:"crash,omitempty"`
 	Ms       int64    `json:"ms"` // wall time of the scenario including cleanup
@@ -561,7 +563,17 @@ func c11Await(ch chan c11Ret, d time.Duration) (c11Ret, bool) {
 }
 
 func c11DoneClosed(cli *mqtt.BaseClient, d time.Duration) bool {
-	ch := cli.Done()
+	// Done() takes the client lock: never trust it to return
+	got := make(chan (<-chan struct{}), 1)
+	go func() { got <- cli.Done() }()
+	var ch <-chan struct{}
+	lim := c11Limit()
+	select {
+	case ch = <-got:
+	case <-time.After(lim):
+		c11Expired(lim)
+		return false
+	}
 	if ch == nil {
 		return false
 	}
@@ -1241,6 +1253,169 @@ func c11RunStray(sp c11Spec) (obs c11Obs) {
 	return obs
 }
 
+// ---------------------------------------------------------------- a message handler in progress
+
+// c11RunHandler: an inbound PUBLISH (QoS sp.K) is being handled: the handler is parked inside Serve on a gate
+// the scenario holds. Meanwhile requests (sp.Calls) are issued, whose contexts are then cancelled / expire, and
+// one caller of something that takes the client lock exclusively (sp.Kind: disconnect, done, handle, close, none)
+// arrives before or after them (sp.IDs). Then the handler is released; with sp.Phase == "reentrant" it first
+// publishes a QoS 0 reply itself.
+func c11RunHandler(sp c11Spec) (obs c11Obs) {
+	wait := c11Limit()
+	sc := c11NewScope()
+	bg := context.Background()
+	peer := c11NewPeer(1, true)
+	cli := &mqtt.BaseClient{Transport: peer.conn}
+	entered := make(chan struct{}, 4)
+	gate := make(chan struct{})
+	handled := make(chan struct{}, 4)
+	reentrant := sp.Phase == "reentrant"
+	var cancels []context.CancelFunc
+	released := false
+	release := func() {
+		if !released {
+			released = true
+			close(gate)
+		}
+	}
+	var pending []c11Pending
+	defer func() {
+		release()
+		for _, c := range cancels {
+			c()
+		}
+		c11CloseG(cli, &obs.AuxStuck)
+		for _, p := range pending {
+			if _, ok := c11Await(p.ch, wait); !ok {
+				obs.AuxStuck += p.name + " "
+			}
+		}
+		if ok, left := sc.waitNone(nil, wait); !ok {
+			obs.Leak = left
+			obs.LeakAt = sc.stackOfNew()
+		}
+	}()
+	cli.Handle(mqtt.HandlerFunc(func(m *mqtt.Message) {
+		if m.Topic != "h" {
+			return
+		}
+		entered <- struct{}{}
+		<-gate
+		if reentrant {
+			ctx, cancel := ctxTimeout(c11Wait)
+			_ = cli.Publish(ctx, &mqtt.Message{Topic: "reply", QoS: mqtt.QoS0, Payload: []byte{1}})
+			cancel()
+		}
+		handled <- struct{}{}
+	}))
+	cctx, ccancel := ctxTimeout(wait)
+	_, err := cli.Connect(cctx, "cid")
+	ccancel()
+	if err != nil {
+		obs.c11Res = c11Res{Res: "other", Detail: "setup: Connect failed: " + err.Error()}
+		return obs
+	}
+	in := encPublish(inMsg{Topic: []byte("h"), QoS: byte(sp.K), ID: 7, Payload: []byte{9}})
+	if sp.K == 2 {
+		in = append(in, encID(0x62, 7)...) // the handler of a QoS 2 message runs on PUBREL
+	}
+	peer.conn.send(in)
+	select {
+	case <-entered:
+	case <-time.After(wait):
+		obs.c11Res = c11Res{Res: "other", Detail: "setup: the handler was never called"}
+		return obs
+	}
+	// ---- the caller that takes the client lock exclusively
+	runExcl := func() {
+		var ch chan c11Ret
+		switch sp.Kind {
+		case "none":
+			obs.ExclRet = true
+			return
+		case "disconnect":
+			dctx, dcancel := ctxTimeout(c11Wait)
+			cancels = append(cancels, dcancel)
+			ch = c11Go(func() error { return cli.Disconnect(dctx) })
+		case "done":
+			ch = c11Go(func() error { cli.Done(); return nil })
+		case "handle":
+			ch = c11Go(func() error { cli.Handle(mqtt.HandlerFunc(func(*mqtt.Message) {})); return nil })
+		case "close":
+			ch = c11Go(func() error { return cli.Close() })
+		}
+		if r, ok := c11Await(ch, wait); ok {
+			obs.ExclRet = r.panicked == "" && (sp.Kind != "disconnect" || r.err == nil)
+			if !obs.ExclRet {
+				obs.Note = fmt.Sprintf("%s returned %v %s", sp.Kind, r.err, r.panicked)
+			}
+		} else {
+			pending = append(pending, c11Pending{sp.Kind + " (takes the client lock)", ch})
+		}
+	}
+	if sp.IDs == "before" {
+		runExcl()
+	}
+	// ---- the requests
+	n := len(sp.Calls)
+	ctxs := make([]context.Context, n)
+	rets := make([]chan c11Ret, n)
+	need := map[byte]int{}
+	for i, call := range sp.Calls {
+		var ctx context.Context
+		var cancel context.CancelFunc
+		if sp.Cause == "deadline" {
+			ctx, cancel = context.WithTimeout(bg, 60*time.Millisecond)
+		} else {
+			ctx, cancel = context.WithCancel(bg)
+		}
+		ctxs[i] = ctx
+		cancels = append(cancels, cancel)
+		need[c11ReqType(call, false)]++
+		call := call
+		rets[i] = c11Go(func() error { return c11Invoke(call, false, cli, nil, ctx) })
+	}
+	for t, k := range need {
+		if !peer.waitSeen(t, k, nil, wait) {
+			obs.Note += fmt.Sprintf("only %d of %d packets of type %x seen; ", peer.count(t), k, t)
+		}
+	}
+	if sp.IDs != "before" {
+		runExcl()
+	}
+	// ---- their contexts end while the handler is still parked
+	if sp.Cause == "cancel" {
+		for _, c := range cancels {
+			c()
+		}
+	}
+	obs.All = make([]c11Res, n)
+	limit := time.After(c11Clamp(wait))
+	for i := range rets {
+		select {
+		case r := <-rets[i]:
+			obs.All[i] = c11Classify(r, ctxs[i])
+		case <-limit:
+			c11Expired(wait)
+			obs.All[i] = c11Res{Res: "stuck"}
+			limit = time.After(time.Millisecond)
+			pending = append(pending, c11Pending{"request " + sp.Calls[i], rets[i]})
+		}
+	}
+	// ---- the handler is released
+	release()
+	select {
+	case <-handled:
+		obs.HandRet = true
+	case <-time.After(c11Clamp(wait)):
+		c11Expired(wait)
+	}
+	c11CloseG(cli, &obs.AuxStuck)
+	obs.Res = "n/a"
+	c11ObserveEnd(&obs, sc, peer, cli, wait)
+	return obs
+}
+
 // ---------------------------------------------------------------- several calls blocked at once
 
 func c11RunMulti(sp c11Spec) (obs c11Obs) {
@@ -1679,6 +1854,8 @@ func runC11Child(cfg *runCfg) error {
 			switch sp.Fam {
 			case "cell":
 				o = c11RunCell(sp)
+			case "handler":
+				o = c11RunHandler(sp)
 			case "seq":
 				o = c11RunSeq(sp)
 			case "stray":
@@ -2069,6 +2246,54 @@ func runC11(cfg *runCfg) error {
 	cf.result("V_stray", "c11_stray_violations stray_cases")
 	cf.result("M_stray", "c11_stray_mismatches stray_cases")
 
+	// ---- a message handler in progress
+	var hCases []string
+	exclCode := map[string]int{"none": 0, "disconnect": 1, "done": 2, "handle": 3, "close": 4}
+	reqKinds := []string{"ping", "pub1", "pub2", "sub", "unsub"}
+	for round := 0; round < rounds; round++ {
+		for q := 0; q <= 2; q++ {
+			for _, excl := range []string{"none", "disconnect", "done", "handle", "close"} {
+				for _, order := range []string{"before", "after"} {
+					for _, z := range []string{"cancel", "deadline"} {
+						for _, re := range []string{"", "reentrant"} {
+							sp := c11Spec{Fam: "handler", K: q, Kind: excl, IDs: order, Cause: z, Phase: re}
+							// one request alone or several at once
+							nreq := 1 + r.Intn(4)
+							for _, j := range r.Perm(len(reqKinds))[:nreq] {
+								sp.Calls = append(sp.Calls, reqKinds[j])
+							}
+							if over() {
+								skipped++
+								continue
+							}
+							o, err := exec1(sp)
+							if err != nil {
+								return err
+							}
+							var cs, rs []string
+							for _, c := range sp.Calls {
+								cs = append(cs, fmt.Sprint(c11CallCode[c]))
+							}
+							for _, x := range o.All {
+								rs = append(rs, c11CoqRes(x))
+								dist["handler_"+x.Res]++
+							}
+							hCases = append(hCases, cTuple(fmt.Sprint(q), fmt.Sprint(exclCode[excl]), cBool(order == "before"), fmt.Sprint(c11CauseCode[z]),
+								cBool(re != ""), cListInline(cs), cListInline(rs), cBool(o.ExclRet), cBool(o.HandRet), cBool(o.Done), cBool(o.RExit),
+								cBool(len(o.Leak) > 0 || o.AuxStuck != "" || o.Crash != "")))
+							m.Families["handler"] = append(m.Families["handler"], map[string]interface{}{"inbound_qos": q, "exclusive_lock_caller": excl, "arrives": order,
+								"cause": z, "handler_reentrant": re != "", "requests": sp.Calls, "observed": o})
+							nontrivial++
+						}
+					}
+				}
+			}
+		}
+	}
+	cf.def("handler_cases", "list c11_handler_case", cList(hCases))
+	cf.result("V_handler", "c11_handler_violations handler_cases")
+	cf.result("M_handler", "c11_handler_mismatches handler_cases")
+
 	// ---- several calls blocked at once, one connection end
 	kinds := []string{"pub1@wait1", "pub2@wait1", "pub2@wait2", "sub@wait1", "unsub@wait1", "ping@wait1"}
 	ends := []string{"localclose", "localdisconnect", "peerclose", "malformed"}
@@ -2192,7 +2417,8 @@ func runC11(cfg *runCfg) error {
 	m.Distribution["stray_scenarios"] = strayRun
 	m.Distribution["stray_space"] = len(straySpecs)
 	m.Distribution["seq_scenarios"] = len(seqCases)
-	m.Evaluations = len(cellCases) + len(seqCases) + len(strayCases) + len(multiCases) + len(rcCases)
+	m.Distribution["handler_scenarios"] = len(hCases)
+	m.Evaluations = len(hCases) + len(cellCases) + len(seqCases) + len(strayCases) + len(multiCases) + len(rcCases)
 	m.DistinctNontrivial = nontrivial
 	m.Exhaustive = skipped == 0
 	m.Rule = fmt.Sprintf("the whole matrix of Calls.v (%d cells: 9 calls x {waiting for the connect lock, before the write, parked in the 1st select, parked in the 2nd select} x {cancel, deadline, Close, Disconnect, peer close, malformed packet}) executed %d time(s) on a real BaseClient over an in-memory transport whose scripted peer withholds exactly the awaited answer (parked = request seen on the wire); %d of the %d 'stray acknowledgement' scenarios ({no call, QoS1, QoS2 at PUBREC, QoS2 at PUBCOMP, Subscribe, Unsubscribe, Ping parked} x {cancel, Close, Disconnect, peer close, malformed} x {1,2,3} x {PINGRESP after an answered / a timed-out Ping; repeated CONNACK; PUBACK, PUBREC, PUBCOMP, SUBACK, UNSUBACK duplicating a completed exchange / for an identifier never used}; a marker PUBLISH handed to the handler shows the reader consumed them; then the cause); %d scenarios with 2-6 random calls parked on one connection (in every third one the contexts of a random subset are cancelled first) and one connection end; %d scenarios of the reconnecting client (Connect with failing/hanging dials or CONNACK withheld + cancel/deadline; Disconnect in six phases). distinct_nontrivial = scenarios in which a call is really blocked when the cause strikes (everything except the 'before the write' cells)", len(specs), rounds, strayRun, len(straySpecs), nMulti, len(rcCases))
